@@ -103,7 +103,7 @@ Proof. intros Q H. rewrite p_remove_kw by exact Q. rewrite H. destruct j; reflex
 (* ------------------------------------------------------------------ the loop: entries that are kept *)
 Lemma cleanup_loop_skip ll total : forall a w b idx,
   (forall k x, nth_error a k = Some x -> act ll total (idx + k) x = AKeep) ->
-  cleanup_loop w (a ++ b) idx ll total = cleanup_loop w b (idx + length a) ll total.
+  cleanup_loop w (a ++ b) idx ll total None = cleanup_loop w b (idx + length a) ll total None.
 Proof.
   induction a as [|x a IH]; intros w b idx H.
   - cbn [app length]. rewrite Nat.add_0_r. reflexivity.
@@ -114,7 +114,7 @@ Proof.
 Qed.
 
 Lemma cleanup_loop_all_keep ll total a w idx :
-  (forall k x, nth_error a k = Some x -> act ll total (idx + k) x = AKeep) -> cleanup_loop w a idx ll total = (true, w).
+  (forall k x, nth_error a k = Some x -> act ll total (idx + k) x = AKeep) -> cleanup_loop w a idx ll total None = (true, w).
 Proof. intros H. rewrite <- (app_nil_r a). rewrite cleanup_loop_skip by exact H. reflexivity. Qed.
 
 Lemma act_keep_below ll total idx x : idx < ll -> ll <= total -> act ll total idx x = AKeep.
@@ -259,13 +259,13 @@ Qed.
 
 (* ------------------------------------------------------------------ one cleanup with a budget *)
 Lemma cleanup_impl_kw_unfold c q j k flt n m : klim k = Some (n, m) -> quiet q ->
-  cleanup_impl c (kw q j) k flt false =
+  cleanup_impl c (kw q j) k flt None =
   match list_log_gz (woff q) (c_spec c) (fixed_of c (kw q j)) (wfs q) flt with
   | None => (Panic, kw q j)
   | Some files =>
     let '(ok0, w1', files') := remove_redundant (kw q j) (redundant_gz files) files in
     if negb ok0 then (Err, w1') else
-    let '(ok, w2) := cleanup_loop w1' files' 0 n (n + m) in ((if ok then Ok tt else Err), w2)
+    let '(ok, w2) := cleanup_loop w1' files' 0 n (n + m) None in ((if ok then Ok tt else Err), w2)
   end.
 Proof.
   intros H Q. destruct k; cbn [klim] in H; try discriminate; injection H as <- <-;
@@ -273,13 +273,13 @@ Proof.
 Qed.
 
 Lemma loop_tail_dead w files idx ll total (r1 : bool) : dead w ->
-  exists r, (if r1 then cleanup_loop w files idx ll total else (false, w)) = (r, w).
+  exists r, (if r1 then cleanup_loop w files idx ll total None else (false, w)) = (r, w).
 Proof. intros D. destruct r1; [apply cleanup_loop_dead; exact D | eauto]. Qed.
 
 Lemma cleanup_budget c crit k n m q closed ocur j :
   numkcfg c crit k -> klim k = Some (n, m) -> sfx_ok (c_spec c) -> quiet q ->
   kst c (wfs q) (wfs q) closed ocur (k_lo k (length closed - 1)) (k_mid k (length closed - 1)) None ->
-  exists r w', cleanup_impl c (kw q (S j)) k IFNum false = (r, w') /\
+  exists r w', cleanup_impl c (kw q (S j)) k IFNum None = (r, w') /\
     ( (exists f' j', w' = kw (set_fs q f') (S j') /\ r = Ok tt
                       /\ kst c (wfs q) f' closed ocur (k_lo k (length closed)) (k_mid k (length closed)) None)
       \/ (exists f' lo mid red, w' = kw (set_fs q f') 0 /\ kst c (wfs q) f' closed ocur lo mid red
@@ -355,7 +355,7 @@ Qed.
 Lemma cleanup_budget_noop c crit k n m q closed lo mid j :
   numkcfg c crit k -> klim k = Some (n, m) -> sfx_ok (c_spec c) -> quiet q ->
   kdir c (wfs q) closed lo mid -> length closed <= n ->
-  cleanup_impl c (kw q j) k IFNum false = (Ok tt, kw q j).
+  cleanup_impl c (kw q j) k IFNum None = (Ok tt, kw q j).
 Proof.
   intros (Hrot & Hts & Hlink & Has & Hbg) Hk Hsfx Q KD Hn.
   pose proof (kd_le _ _ _ _ _ KD) as Hle.
